@@ -1,6 +1,7 @@
-import RulesModel.Model.Api
+import RulesModel.Model.Spec
 import RulesModel.Model.NestedError
 import RulesModel.Generated.Grammar
+import Std.Data.HashMap
 /-!
 # `rulesdrv`: the model behind a line protocol (DESIGN §4.2)
 
@@ -230,6 +231,34 @@ def runP (e : Evaluator) : List (ApiOp × Option ProcOut) → List ApiOut
     let (e', o) := stepWith (fun _ _ => ans.getD syntaxOut) e op
     o :: runP e' rest
 
+def opName : CmpOp → String
+  | .eq => "eq" | .ne => "ne" | .gt => "gt" | .lt => "lt" | .ge => "ge" | .le => "le" | .co => "co" | .sw => "sw" | .ew => "ew" | .in_ => "in"
+
+def kindName : OpKind → String
+  | .null => "null" | .bool => "bool" | .int => "int" | .float => "float" | .string => "string" | .version => "version"
+
+def valClass : Value → String
+  | .null => "absent" | .bool _ => "bool" | .int _ => "int" | .int32 _ => "int32" | .int64 _ => "int64" | .float _ => "float64"
+  | .str _ => "string" | .obj _ => "object" | .stringer _ _ => "stringer" | .other _ => "other"
+
+/-- which arm of the model a comparison takes: literal type . operator . attribute class . result class -/
+def leafKey (lower : Bytes → Bytes) (item : List (Bytes × Value)) : Tree → String
+  | .present p => match denote item p with
+    | .ok v => "pr." ++ valClass v
+    | .error _ => "pr.panic"
+  | .compare p k lit =>
+    match denote item p, litOperand lit, cmpOfKind k with
+    | .error _, _, _ => "cmp.path-panic"
+    | _, none, _ => "cmp.bad-literal"
+    | _, _, none => "cmp.unknown-op"
+    | .ok v, some (kind, r), some op =>
+      let res := match apply lower kind op v r with
+        | .ok true _ => "true" | .ok false _ => "false" | .panic _ => "panic"
+        | .err .invalidOperation _ => "invalid-operation" | .err .missing _ => "missing"
+        | .err .invalidOperand _ => "invalid-operand" | .err .other _ => "other-error"
+      kindName kind ++ "." ++ opName op ++ "." ++ valClass v ++ "." ++ res
+  | _ => "?"
+
 def tokStr (t : Token) : String := s!"{t.kind}:{hexOfString (String.ofList t.text)}"
 
 def handle (rules : List (Rules.Kind × Regex)) (line : String) : String :=
@@ -294,17 +323,40 @@ def handle (rules : List (Rules.Kind × Regex)) (line : String) : String :=
   | "NERR" :: rest => NErr.handle rest
   | _ => "BADCMD"
 
-partial def loop (rules : List (Rules.Kind × Regex)) (hin hout : IO.FS.Stream) : IO Unit := do
+/-- model arms exercised by an EVAL request (reached comparisons only) -/
+def statKeys (rules : List (Rules.Kind × Regex)) (line : String) : List String :=
+  match line.splitOn "\t" with
+  | ["EVAL", lm, h, obj] =>
+    match parseObj obj with
+    | none => []
+    | some item =>
+      let e := newEvaluator rules (runesOf (unhex h))
+      match e.tree with
+      | none => ["syntax-error"]
+      | some t => (reached (lowerFn (parseLowMap lm)) item t).map (leafKey (lowerFn (parseLowMap lm)) item)
+  | _ => []
+
+partial def loop (rules : List (Rules.Kind × Regex)) (hin hout : IO.FS.Stream) (stats : IO.Ref (Std.HashMap String Nat)) : IO Unit := do
   let line ← hin.getLine
   if line.isEmpty then return ()
   let l := if line.endsWith "\n" then (line.dropEnd 1).toString else line
-  if l == "FLUSH" then hout.flush else hout.putStrLn (handle rules l)
-  loop rules hin hout
+  if l == "FLUSH" then hout.flush
+  else if l == "STATS" then
+    let m ← stats.get
+    let arr := m.toArray.qsort (fun a b => a.1 < b.1)
+    hout.putStrLn (";".intercalate (arr.toList.map fun (k, v) => s!"{k}={v}"))
+  else
+    hout.putStrLn (handle rules l)
+    if l.startsWith "EVAL" then
+      for k in statKeys rules l do
+        stats.modify fun m => m.insert k (m.getD k 0 + 1)
+  loop rules hin hout stats
 
 end Drv
 
 def main : IO Unit := do
   let hin ← IO.getStdin
   let hout ← IO.getStdout
-  Drv.loop Rules.Generated.lexerRules hin hout
+  let stats ← IO.mkRef (∅ : Std.HashMap String Nat)
+  Drv.loop Rules.Generated.lexerRules hin hout stats
   hout.flush
